@@ -399,8 +399,9 @@ fn cmd_compiles(args: &[String]) -> i32 {
     exec::calibrate_helpers();
     if let Some(path) = arg(args, "--cases") {
         let report_path = arg(args, "--report").expect("--report");
-        let recs: Vec<Value> = read_ndjson(path).into_iter().filter(|r| r["accept"] == json!(true)).collect();
+        let recs: Vec<Value> = read_ndjson(path);
         let results = run_isolated(&recs, 60000, compile::run_compile_record);
+        let mut accepted_by_real = 0u64;
         let mut fails = Vec::new();
         let mut nfail = 0u64;
         let mut compilations = 0u64;
@@ -413,6 +414,9 @@ fn cmd_compiles(args: &[String]) -> i32 {
                 ChildResult::Exit(c) => (vec![format!("process exited {c}")], json!({})),
             };
             compilations += 2 * arr(&obs["obs"]).len() as u64;
+            if obs["rejected"] != json!(true) {
+                accepted_by_real += 1;
+            }
             if bad.is_empty() {
                 if samples.len() < 2 {
                     samples.push(json!({"record": rec, "observed": obs}));
@@ -424,7 +428,7 @@ fn cmd_compiles(args: &[String]) -> i32 {
                 }
             }
         }
-        let report = json!({"programs": recs.len(), "compilations": compilations, "fail": nfail, "failures": fails, "samples": samples});
+        let report = json!({"programs": recs.len(), "accepted_by_real_verifier": accepted_by_real, "compilations": compilations, "fail": nfail, "failures": fails, "samples": samples});
         std::fs::write(report_path, serde_json::to_string(&report).unwrap()).unwrap();
         println!("compiles: {} accepted programs, {} compilations, {} failing programs", recs.len(), compilations, nfail);
         return 0;
